@@ -13,6 +13,7 @@ pub fn sigma05() -> Vec<char> {
         0xFB01, 0xFF41, 0x2460, // compatibility characters that must survive
         0x65E5, 0x10400, // 3- and 4-byte letters
         0x09, 0x378, 0x200D, 0xA8, // disallowed, unassigned, contextual, HasCompat symbol
+        0x334, // combining overlay (ccc 1, NFC_QC=Yes): between a base and a composing mark
     ]
     .iter()
     .map(|c| char::from_u32(*c).unwrap())
@@ -44,11 +45,29 @@ pub fn run(env: &Env, run: &Run) -> (Stats, Coverage) {
                 st.nontrivial += 1;
             }
         }
+        for a in alias_chars(c) {
+            for l in [vec![x, a as u32], vec![a as u32, x]] {
+                check_op(env, p, Op::Enforce, &from_cps(&l), st);
+            }
+        }
+    }));
+
+    // structural families: pumped runs a^k b / b a^k / a^k b a (k around 8, 16, 32, 64 and, for a
+    // few symbols, 128..1025) and every ASCII character at every offset of 7..33-byte ASCII strings
+    let fam = {
+        let mut v = pumped(&sigma, &PUMP_LENGTHS);
+        v.extend(pumped(&sigma[..sigma.len().min(6)], &PUMP_LENGTHS_LONG));
+        v.extend(ascii_blocks());
+        v
+    };
+    st.merge(run_family(&fam, |s, st| {
+        check_op(env, p, Op::Prepare, s, st);
+        check_op(env, p, Op::Enforce, s, st);
     }));
     st.sample(json!({"input": ["a", "U+3000", "U+FB01", "A"], "expected": "Ok(\"a U+FB01 A\"): ideographic space -> U+0020, ligature and case untouched"}));
     st.sample(json!({"input": ["e", "U+0301", "U+00A0"], "expected": "Ok(U+00E9 U+0020)"}));
     let cov = Coverage {
-        rule: format!("every string of length <= {} over a 20-symbol alphabet (ASCII space, Zs of 2 and 3 bytes, NFC-changing sequences, compatibility characters, 1-4 byte letters, disallowed/unassigned/contextual) x {{prepare, enforce}} + every scalar value in 9 templates; oracle = non-empty -> FreeformClass(first offender) -> map non-ASCII Zs (UnicodeData gc=Zs) to U+0020 -> NFC -> non-empty; equality of whole results, so any other alteration is visible; non-trivial = a step changes the string", n),
+        rule: format!("every string of length <= {} over a 21-symbol alphabet (ASCII space, Zs of 2 and 3 bytes, NFC-changing sequences, compatibility characters, 1-4 byte letters, disallowed/unassigned/contextual) x {{prepare, enforce}} + pumped runs and ASCII block strings + every scalar value in 9 templates and next to each of its bit-16..20 aliases; oracle = non-empty -> FreeformClass(first offender) -> map non-ASCII Zs (UnicodeData gc=Zs) to U+0020 -> NFC -> non-empty; equality of whole results, so any other alteration is visible; non-trivial = a step changes the string", n),
         alphabet: json!(sigma.iter().map(|c| format!("U+{:04X}", *c as u32)).collect::<Vec<_>>()),
         bound_completed: format!("length <= {} ({} strings) x 2 ops; sweep 1,112,064 x 9 templates x 2", n, tree_size(sigma.len(), n)),
         exhaustive: false,
